@@ -10,9 +10,9 @@
   coerce, assign on a copy, clear, add every item again through the de-duplication filter) are
   inside the theorems, and since /repo 41bec34 `Trackers.replace` validates before it clears.  The
   Since /repo 3d3793a `reverse()` is part of the operation alphabet: on a URL list it is one slice
-  assignment of the reversed list (`C16_reverse*`); on the tiers container it is the inherited
-  `MutableSequence.reverse`, which changes nothing (`C16_tiers_reverse_partial`,
-  `C16_tiers_reverse_counterexample`) — metainfo and lists stay in sync, so C16 is not violated.  The
+  assignment of the reversed list (`C16_reverse*`); on the tiers container it reverses `_tiers` in
+  place since /repo f86a28a (`C16_tiers_reverse`; the inherited `MutableSequence.reverse` silently did
+  nothing — regression examples below).  The
   code still falsifies the full statement in ONE way (open finding D16b: slice assignment on the
   tiers container, `torrent.trackers[a:b] = …`), so the full statement is kept as
   `def …_full : Prop`, the `_partial` theorems are proved for histories without that operation
@@ -178,57 +178,42 @@ theorem C16_reverse_tier (isUrl : String → Bool) (T : Tiers) (ti : Int) (k : N
     simpa using this
   simp only [tierOp, hpi, hget, urlsOp_reverse hu, Option.map_some, afterTier, hne, if_false]
 
-/-- `reverse()` on the tiers container as one would state it: the tiers are reversed -/
-def C16_tiers_reverse_full : Prop :=
-  ∀ (isUrl : String → Bool) (s : MI) (T : Tiers), TiersOK isUrl T →
-    (heldOp isUrl s T .reverse).2.1 = T.reverse
+/-- `torrent.trackers.reverse()` (/repo f86a28a; the former `def C16_tiers_reverse_full`, which the
+    inherited `MutableSequence.reverse` falsified by doing nothing): whatever the tiers `T` of the
+    object are, the callback is called exactly ONCE, with exactly `T.reverse`, and no error is
+    raised; on a held object the tiers are `T.reverse` afterwards, the metainfo mirrors them —
+    `announce` is the first URL of the NEW first tier (the old last one), `announce-list` the reversed
+    tiers iff there is more than one URL — and nothing else changes; good tiers stay good -/
+theorem C16_tiers_reverse (isUrl : String → Bool) (s : MI) (T : Tiers) :
+    tiersOp isUrl T .reverse = (some (wOf T.reverse), .ok) ∧
+    (heldOp isUrl s T .reverse).2 = (T.reverse, .ok) ∧
+    Mirrors (heldOp isUrl s T .reverse).1 T.reverse ∧
+    (heldOp isUrl s T .reverse).1.announce = T.getLast?.bind List.head? ∧
+    (heldOp isUrl s T .reverse).1.urlList = s.urlList ∧
+    (heldOp isUrl s T .reverse).1.httpseeds = s.httpseeds ∧
+    (TiersOK isUrl T → TiersOK isUrl T.reverse) := by
+  refine ⟨rfl, rfl, ⟨rfl, rfl⟩, ?_, rfl, rfl, TiersOK_reverse⟩
+  simp [heldOp, tiersOp, writeTrackers, wOf, List.head?_reverse]
 
-/-- what `Trackers.reverse()` (the inherited `MutableSequence.reverse`: swaps through
-    `Trackers.__setitem__` with integer indexes) really does on good tiers: NOTHING.  Each half of
-    each swap assigns a tier whose URLs are all stored already, so `Trackers.__setitem__` builds an
-    empty tier and assigns nothing.  No error; the callback runs (with the unchanged tiers) iff
-    there are at least two tiers; a state that mirrors the tiers stays exactly as it is -/
-theorem C16_tiers_reverse_partial (isUrl : String → Bool) (s : MI) (T : Tiers)
-    (hT : TiersOK isUrl T) :
-    tiersOp isUrl T .reverse = (if T.length < 2 then none else some (wOf T), .ok) ∧
-    (heldOp isUrl s T .reverse).2 = (T, .ok) ∧
-    (Mirrors s T → (heldOp isUrl s T .reverse).1 = s) := by
-  have hl := tiersReverseLoop_noop (isUrl := isUrl) (n := T.length) (is := List.range (T.length / 2))
-    (last := none) hT rfl (fun i hi => by have := List.mem_range.1 hi; omega)
-  have h1 : tiersOp isUrl T .reverse = (if T.length < 2 then none else some (wOf T), .ok) := by
-    simp only [tiersOp, hl]
-    by_cases h2 : T.length < 2
-    · have : T.length / 2 = 0 := by omega
-      simp [h2, this]
-    · have : T.length / 2 ≠ 0 := by omega
-      simp [h2, this]
-  refine ⟨h1, ?_, ?_⟩
-  · simp only [heldOp, h1]
-    by_cases h2 : T.length < 2 <;> simp [h2, wOf]
-  · intro hm
-    simp only [heldOp, h1]
-    split
-    · rfl
-    · rename_i w out hw
-      split at hw
-      · cases hw
-      · cases hw
-        obtain ⟨ha, hal⟩ := hm
-        cases s
-        simp_all [writeTrackers, wOf]
+/-- … at state level, through a fresh getter call, from any state that mirrors good tiers `T`:
+    no error, `announce` / `announce-list` are what the write-back produces for `T.reverse`, and a
+    fresh `torrent.trackers` afterwards returns exactly `T.reverse` -/
+theorem C16_tiers_reverse_state (isUrl : String → Bool) (s : MI) (T : Tiers)
+    (hT : TiersOK isUrl T) (hm : Mirrors s T) :
+    step isUrl s (.trackers .reverse) = (writeTrackers s (wOf T.reverse), .ok) ∧
+    getTrackers isUrl (writeTrackers s (wOf T.reverse)) = .ok T.reverse := by
+  refine ⟨?_, getTrackers_eq (TiersOK_reverse hT) rfl rfl⟩
+  simp only [step, trackersOp, getTrackers_eq hT hm.1 hm.2, tiersOp, applyWritten]
 
-/-- `tr = [[a], [b]]; tr.reverse()` leaves `[[a], [b]]` -/
-theorem C16_tiers_reverse_counterexample : ¬ C16_tiers_reverse_full := by
-  intro h
-  have := h (fun u => u == "http://a/1" || u == "http://b/2") MI.init [["http://a/1"], ["http://b/2"]]
-    (by
-      refine ⟨by decide, by decide, ?_⟩
-      intro u hu
-      simp only [List.flatten_cons, List.flatten_nil, List.append_nil, List.cons_append, List.nil_append,
-        List.mem_cons, List.not_mem_nil, or_false] at hu
-      rcases hu with rfl | rfl <;> exact ⟨by decide, by decide⟩)
-  revert this
-  decide
+/-- what is LEFT of the old no-op: `tr[i] = v` with a tier value whose URLs are all stored already
+    (in any tier, the one that is to be replaced included) assigns nothing — `Trackers.__setitem__`
+    de-duplicates the new tier against ALL current URLs, so moving a tier by assignment
+    (`tr[0] = tr[1]`) is impossible; no error, the callback runs with the unchanged tiers.  (This
+    is why the inherited swap loop did nothing.)  Everything stays in sync. -/
+theorem C16_tiers_setitem_stored_noop (isUrl : String → Bool) (T : Tiers) (i : Int) (x : Tier)
+    (hT : TiersOK isUrl T) (hx : x ∈ T) :
+    tiersOp isUrl T (.setItem i (.list x)) = (some (wOf T), .ok) := by
+  simp only [tiersOp, tiersSetItem, tiersSetItemT_stored hT hx]
 
 /-! ### non-vacuity -/
 
@@ -285,8 +270,8 @@ example :
     (step wIsUrl s (.webseeds (.edit (.setItem 0 "udp://c:80/3")))).1.urlList
       = some ["udp://c:80/3", "http://b/2"] := by decide
 
-/-- `reverse()`: on a seed list and on a tier it reverses (one write-back), on the tiers container
-    it changes nothing, on an empty list it does nothing, on a tier that does not exist it is the
+/-- `reverse()`: on a seed list, on a tier and on the tiers container it reverses (one write-back),
+    on an empty list it does nothing, on a tier that does not exist it is the
     IndexError of `trackers[ti]`; `Spec.holds` afterwards -/
 example :
     let s := run wIsUrl MI.init [.trackers (.set (.list [.list ["http://a/1", "http://b/2"], .str "udp://c:80/3"])),
@@ -296,7 +281,13 @@ example :
     (step wIsUrl s (.trackers (.tier 0 .reverse))) =
       ({ s with announce := some "http://b/2",
                 announceList := some [["http://b/2", "http://a/1"], ["udp://c:80/3"]] }, .ok) ∧
-    (step wIsUrl s (.trackers .reverse)) = (s, .ok) ∧
+    (step wIsUrl s (.trackers .reverse)) =
+      ({ s with announce := some "udp://c:80/3",
+                announceList := some [["udp://c:80/3"], ["http://a/1", "http://b/2"]] }, .ok) ∧
+    -- regression: the inherited swap loop left `s` as it was (`reverse()` silently did nothing)
+    (step wIsUrl s (.trackers .reverse)).1 ≠ s ∧
+    -- … because each half of a swap is an assignment of a stored tier, which still assigns nothing
+    (step wIsUrl s (.trackers (.setItem 0 (.list ["udp://c:80/3"])))) = (s, .ok) ∧
     (step wIsUrl MI.init (.webseeds (.edit .reverse))) = (MI.init, .ok) ∧
     (step wIsUrl MI.init (.trackers .reverse)) = (MI.init, .ok) ∧
     (step wIsUrl MI.init (.trackers (.tier 0 .reverse))) = (MI.init, .error .index) ∧
